@@ -732,8 +732,10 @@ pub fn run(args: &Args) {
     rep.set("fillers", "todo(), test_fail(), helper with failing check, foreign call probe::hit, helper falling off a match on None, return -999");
     rep.set("bounds", "every construct kind × every selector value × {selector as parameter, as literal} × every slot holding one nested construct (every kind × selector) × 6 fillers × bool payload");
     rep.assume("the harness FFI module `probe` logs exactly the foreign calls the VM makes (MachineIO::call)");
-    rep.require_nonzero("agree");
-    rep.require_nonzero("programs_nested_two_deep");
-    rep.require_nonzero("dead_slots");
+    if args.replay.is_none() {
+        rep.require_nonzero("agree");
+        rep.require_nonzero("programs_nested_two_deep");
+        rep.require_nonzero("dead_slots");
+    }
     rep.finish()
 }
